@@ -52,9 +52,9 @@ Fixpoint parse_filters (n : nat) (data : bytes) (version : N) (v1 : bool) (offse
       let offset := offset + 2 in
       '(name, offset) <-
         (if v1 && (0 <? nameLength) then
-           let padded := if nameLength mod 8 =? 0 then nameLength else wrap16 (nameLength + (8 - nameLength mod 8)) in
+           let padded := if nameLength mod 8 =? 0 then nameLength else nameLength + (8 - nameLength mod 8) in   (* int *)
            if blen data <? offset + padded then Err else
-           nb <- slice data offset (offset + nameLength);;       (* out of range when padded wrapped: panic *)
+           nb <- slice data offset (offset + nameLength);;
            Ok (filter_name nb, offset + padded)
          else Ok ([], offset));;
       '(cd, offset) <-
